@@ -100,7 +100,7 @@ func countOps(r *proto.Record) (tasks, ops, events int) {
 // once more. The observation itself is already a violation; what this adds is a small
 // replay file.
 func confirmAndMinimise(b builds, cfg tierCfg, viol *proto.Record) *proto.Record {
-	m := &minimiser{b: b, want: viol, tries: 1, deadline: time.Now().Add(90 * time.Second), maxCands: 600}
+	m := &minimiser{b: b, want: viol, tries: 1, deadline: time.Now().Add(120 * time.Second), maxCands: 3000}
 	cur := cloneRec(viol)
 	if len(cur.Violations) == 0 {
 		return cur
@@ -170,60 +170,73 @@ func confirmAndMinimise(b builds, cfg tierCfg, viol *proto.Record) *proto.Record
 		}
 	}
 	_ = got
-	// 1. drop whole tasks (keep the slot, empty the ops: indices in events stay valid)
-	for t := len(cur.Run.Tasks) - 1; t >= 0 && !m.exhausted(); t-- {
-		if len(cur.Run.Tasks[t].Ops) == 0 {
-			continue
-		}
-		c := cloneRec(cur)
-		c.Run.Tasks[t].Ops = nil
-		if _, ok := m.holds(c); ok {
-			cur = c
-		}
-		m.cands++
-	}
-	// 2. drop operations
-	for changed := true; changed && !m.exhausted(); {
-		changed = false
-		var cands []*proto.Record
-		for t := range cur.Run.Tasks {
-			for k := len(cur.Run.Tasks[t].Ops) - 1; k >= 0; k-- {
-				c := cloneRec(cur)
-				ops := c.Run.Tasks[t].Ops
-				c.Run.Tasks[t].Ops = append(ops[:k:k], ops[k+1:]...)
-				cands = append(cands, c)
+	for round := 0; round < 3 && !m.exhausted(); round++ {
+		t0, o0, e0 := countOps(cur)
+		// 1. drop whole tasks (keep the slot, empty the ops: indices in events stay valid)
+		for t := len(cur.Run.Tasks) - 1; t >= 0 && !m.exhausted(); t-- {
+			if len(cur.Run.Tasks[t].Ops) == 0 {
+				continue
 			}
+			c := cloneRec(cur)
+			c.Run.Tasks[t].Ops = nil
+			if _, ok := m.holds(c); ok {
+				cur = c
+			}
+			m.cands++
 		}
-		if i, _ := m.firstHolding(cands); i >= 0 {
-			cur = cands[i]
-			changed = true
-		}
-	}
-	// 3. simplify the schedule: no preemption at all, then drop single events
-	if cur.Run.Scripted && len(cur.Run.Events) > 0 {
-		c := cloneRec(cur)
-		c.Run.Events = nil
-		c.Run.First = 0
-		if _, ok := m.holds(c); ok {
-			cur = c
-		}
-		m.cands++
-		for changed := true; changed && !m.exhausted() && len(cur.Run.Events) > 0; {
+		// 2. drop operations
+		for changed := true; changed && !m.exhausted(); {
 			changed = false
 			var cands []*proto.Record
-			for k := len(cur.Run.Events) - 1; k >= 0; k-- {
-				if cur.Run.Events[k].Kind == 6 {
-					continue
+			for t := range cur.Run.Tasks {
+				for k := len(cur.Run.Tasks[t].Ops) - 1; k >= 0; k-- {
+					c := cloneRec(cur)
+					ops := c.Run.Tasks[t].Ops
+					c.Run.Tasks[t].Ops = append(ops[:k:k], ops[k+1:]...)
+					cands = append(cands, c)
 				}
-				c := cloneRec(cur)
-				ev := c.Run.Events
-				c.Run.Events = append(ev[:k:k], ev[k+1:]...)
-				cands = append(cands, c)
 			}
 			if i, _ := m.firstHolding(cands); i >= 0 {
 				cur = cands[i]
 				changed = true
 			}
+		}
+		// 3. simplify the schedule: no preemption at all, then drop single events
+		if cur.Run.Scripted && len(cur.Run.Events) > 0 {
+			c := cloneRec(cur)
+			c.Run.Events = nil
+			c.Run.First = 0
+			if _, ok := m.holds(c); ok {
+				cur = c
+			}
+			m.cands++
+			// delta debugging over the event list: remove chunks of decreasing size
+			for chunk := (len(cur.Run.Events) + 1) / 2; chunk >= 1 && !m.exhausted() && len(cur.Run.Events) > 0; {
+				var cands []*proto.Record
+				for s := 0; s < len(cur.Run.Events); s += chunk {
+					c := cloneRec(cur)
+					e := s + chunk
+					if e > len(c.Run.Events) {
+						e = len(c.Run.Events)
+					}
+					c.Run.Events = append(c.Run.Events[:s:s], c.Run.Events[e:]...)
+					cands = append(cands, c)
+				}
+				if i, _ := m.firstHolding(cands); i >= 0 {
+					cur = cands[i]
+					if chunk > len(cur.Run.Events) {
+						chunk = len(cur.Run.Events)
+					}
+					continue
+				}
+				if chunk == 1 {
+					break
+				}
+				chunk = (chunk + 1) / 2
+			}
+		}
+		if t1, o1, e1 := countOps(cur); t1 == t0 && o1 == o0 && e1 == e0 {
+			break
 		}
 	}
 	// 4. drop environment events attached to operations
@@ -249,6 +262,14 @@ func confirmAndMinimise(b builds, cfg tierCfg, viol *proto.Record) *proto.Record
 			}
 		}
 	}
+	// 4b. compact: remove empty task slots, renumber tasks in the events, forget the
+	// seeded policy parameters of a scripted run (kept only if the result still holds)
+	if c := compact(cur); c != nil {
+		if _, ok := m.holds(c); ok {
+			cur = c
+		}
+		m.cands++
+	}
 	// 5. final confirmation of the minimised record in a fresh process
 	final, ok := m.holds(cur)
 	if !ok {
@@ -270,4 +291,47 @@ func confirmAndMinimise(b builds, cfg tierCfg, viol *proto.Record) *proto.Record
 		t0, o0, e0, viol.Run.Index, t, o, e, len(cur.Prefix), m.cands)
 	logf("%s", cur.Note)
 	return cur
+}
+
+func compact(r *proto.Record) *proto.Record {
+	c := cloneRec(r)
+	remap := map[int8]int8{}
+	var tasks []proto.TaskRec
+	for i, t := range c.Run.Tasks {
+		if len(t.Ops) > 0 {
+			remap[int8(i)] = int8(len(tasks))
+			tasks = append(tasks, t)
+		}
+	}
+	if len(tasks) == len(c.Run.Tasks) && !c.Run.Scripted {
+		return nil
+	}
+	if len(tasks) == 0 {
+		return nil
+	}
+	c.Run.Tasks = tasks
+	var ev []proto.Event
+	for _, e := range c.Run.Events {
+		nt, ok := remap[e.Task]
+		if !ok {
+			continue
+		}
+		e.Task = nt
+		if nn, ok := remap[e.Next]; ok {
+			e.Next = nn
+		} else {
+			e.Next = -1
+		}
+		ev = append(ev, e)
+	}
+	c.Run.Events = ev
+	if f, ok := remap[int8(c.Run.First)]; ok {
+		c.Run.First = int(f)
+	} else {
+		c.Run.First = 0
+	}
+	if c.Run.Scripted {
+		c.Run.Policy = proto.PolicyRec{Kind: "script (was " + c.Run.Policy.Kind + ")"}
+	}
+	return c
 }
